@@ -8,7 +8,7 @@ import gen_c04  # noqa: E402
 import gen_mod  # noqa: E402
 import modties  # noqa: E402
 from common import COQ, Check, REPO, parse_nat_list, sh, zlist  # noqa: E402
-from modgen import named_specs, random_model  # noqa: E402
+from modgen import named_specs, random_mlp, random_model  # noqa: E402
 
 IMPORTS = "From Coq Require Import String List ZArith Bool.\nFrom QV Require Import Model.Module.\nImport ListNotations.\nOpen Scope string_scope.\n"
 OPC = {"forward": 0, "calibrate": 1, "freeze": 2, "to_cpu": 3, "to_device_obj": 3, "deepcopy": 4, "state_dict_reload": 5, "to_dtype": 6}
@@ -65,7 +65,13 @@ def main(tier):
             hist.insert(rng.randint(0, len(hist)), "freeze")
         if a is not None and rng.random() < 0.8:
             hist.insert(0, "calibrate")
-        cases.append({"seed": ck.seed * 1000 + i, "dtype": dtype, "weights": w, "activations": a, "tree": tree, "input": inp, "history": hist, "optimizer": "clip" if rng.random() < 0.3 else None})
+        cases.append({"seed": ck.seed * 1000 + i, "dtype": dtype, "weights": w, "activations": a, "tree": tree, "input": inp, "history": hist, "optimizer": "clip" if rng.random() < 0.3 else None,
+                      "qinput": rng.choice([None, "qint8", "qint8", "qfloat8_e4m3fn"])})
+    # directed: weight-only 8-bit linears (one or two layers) fed an ALREADY QUANTIZED activation, frozen / reloaded / copied
+    for k in range(6 if tier == "quick" else 40):
+        tree, inp = random_mlp(rng, nlin=1 + k % 2)
+        cases.append({"seed": ck.seed * 1000 + 5000 + k, "dtype": ["float32", "float16", "float32"][k % 3], "weights": ["qint8", "qfloat8_e4m3fn", "qint8", "qfloat8"][k % 4], "activations": None, "tree": tree, "input": inp,
+                      "history": [["forward", "freeze", "forward"], ["freeze", "deepcopy", "freeze"], ["freeze", "state_dict_reload", "to_cpu"]][k % 3], "optimizer": None, "qinput": ["qint8", "qfloat8_e4m3fn"][(k // 2) % 2]})
     res = ck.impl("life", {"cases": cases}, timeout=3000)
     if isinstance(res, dict):
         ck.violation("implementation worker crashed: " + res.get("stderr", "")[-300:], {"stderr": res.get("stderr")})
